@@ -179,6 +179,13 @@ Ltac tie_pipe :=
   try reflexivity; try discriminate; try congruence;
   rewrite <- ?app_assoc; cbn [app]; rewrite <- ?app_assoc; try reflexivity; bytes_eq.
 
+(* when the translator could not read a function, Gen/Src.v defines src_f by the model's function; the tie of f is
+   then dropped from the cone for that run, and its proof script must fail at once rather than chew on the model term *)
+Ltac not_fallback f :=
+  lazymatch goal with
+  | |- ?lhs = _ => lazymatch lhs with context [f] => fail 1 "this function fell back to the model" | _ => idtac end
+  end.
+
 (* ---------- loops ---------- *)
 (* a loop that appends g x for every element is concat_opt, whatever the loop body looks like as long as it
    computes "state ++ g x, or raise" *)
